@@ -232,6 +232,9 @@ type GramSpec struct {
 	// LongJobs lists the jobs for a grammar of the long-input layer (family.Long). Entries are
 	// those of Entries with the suffix "L" and two leading hole-position parameters.
 	LongJobs func(g *GenGrammar) []*Job
+	// RawJobs lists extra jobs on inputs that contain invalid UTF-8 at one place. Entries are
+	// those of Entries with the suffix "R" and two leading parameters (position, kind).
+	RawJobs func(g *GenGrammar) []*Job
 	// BrokenIsViolation: a variant that does not generate/compile violates the property.
 	BrokenIsViolation    bool
 	RaceReplay           bool // build the native replay drivers with the race detector
@@ -244,6 +247,12 @@ type GramSpec struct {
 func (spec *GramSpec) entriesFor(gg *GenGrammar) []EntrySpec {
 	es := spec.Entries(gg)
 	if gg.G.Filler == "" {
+		if spec.RawJobs != nil {
+			for _, e := range es[:len(es):len(es)] {
+				es = append(es, EntrySpec{Name: e.Name + "R", Params: "rpos, rkind int, " + e.Params,
+					Body: "hl.SetRaw(rpos, rkind)\n\tdefer hl.ClearRaw()\n\t" + e.Body})
+			}
+		}
 		return es
 	}
 	var out []EntrySpec
@@ -256,7 +265,11 @@ func (spec *GramSpec) entriesFor(gg *GenGrammar) []EntrySpec {
 
 func (spec *GramSpec) jobsFor(gg *GenGrammar) []*Job {
 	if gg.G.Filler == "" {
-		return spec.Jobs(gg)
+		jobs := spec.Jobs(gg)
+		if spec.RawJobs != nil {
+			jobs = append(jobs, spec.RawJobs(gg)...)
+		}
+		return jobs
 	}
 	if spec.LongJobs == nil {
 		return nil
